@@ -1,3 +1,310 @@
-import EvoModel.Model.Align
+/-
+C04 — trajectory alignment applies exactly the returned transform, never worsens the fit.
+Theorems about `Evo.Align` (model of PosePath3D.scale/transform/align/align_origin and of the
+alignment block of ape()/rpe() after fix aaba970). The Umeyama triple `(R, t, s)` is an input of
+the model; its properties come from C03 through the certificate `Ume.umeCert 0`.
+Helper lemmas: Lemmas/Align.lean, Lemmas/Umeyama.lean.
+-/
+import EvoModel.Lemmas.Align
 namespace Evo.C04
+open Evo Evo.Ume Evo.Align
+
+set_option linter.unusedSectionVars false
+set_option linter.unusedSimpArgs false
+variable {K : Type} [Field K]
+
+/-- **every pose is moved by exactly the returned similarity** (similarity mode): position
+`p ↦ s·R·p + t`, orientation `R_p ↦ R·R_p`; rigid mode: the same with `s = 1`. -/
+theorem align_is_similarity (R : M3 K) (t : V3 K) (s : K) (ps : List (Pose K)) :
+    alignApply .sim3 R t s ps = ps.map (fun p => ⟨R.mul p.rot, V3.add (V3.smul s (R.mulVec p.t)) t⟩) ∧
+    alignApply .se3 R t s ps = ps.map (fun p => ⟨R.mul p.rot, V3.add (V3.smul 1 (R.mulVec p.t)) t⟩) :=
+  ⟨alignApply_sim3 R t s ps, alignApply_se3 R t s ps⟩
+
+/-- **scale-only mode multiplies positions by `s` and changes nothing else** -/
+theorem align_scaleOnly (R : M3 K) (t : V3 K) (s : K) (ps : List (Pose K)) :
+    alignApply .scaleOnly R t s ps = ps.map (fun p => ⟨p.rot, V3.smul s p.t⟩) ∧
+    (alignApply .scaleOnly R t s ps).map Pose.rot = ps.map Pose.rot := by
+  refine ⟨rfl, ?_⟩
+  simp [alignApply, scalePath, List.map_map, Function.comp_def]
+
+/-- the number of poses never changes, in any mode -/
+theorem align_length (m : Mode) (R : M3 K) (t : V3 K) (s : K) (ps : List (Pose K)) :
+    (alignApply m R t s ps).length = ps.length := by
+  cases m <;> simp [alignApply, transformLeft, scalePath]
+
+/-- **determined from the first `n` pose pairs only**: `n = -1` uses all positions; for `n ≥ 0`
+the point sets handed to Umeyama are the positions of the first `n` poses, whatever follows. -/
+theorem align_uses_firstN (est ref : List (Pose K)) :
+    alignInputs (-1) est ref = (positions est, positions ref) ∧
+    ∀ (n : Int) (e1 e2 r1 r2 : List (Pose K)), 0 ≤ n → e1.length = n.toNat → r1.length = n.toNat →
+      alignInputs n (e1 ++ e2) (r1 ++ r2) = (positions e1, positions r1) := by
+  refine ⟨by simp [alignInputs, firstN_neg_one], ?_⟩
+  intro n e1 e2 r1 r2 hn he hr
+  simp only [alignInputs, positions, List.map_append]
+  rw [firstN_append n hn _ _ (by simpa using he), firstN_append n hn _ _ (by simpa using hr)]
+
+/-- **origin mode maps the first pose onto the reference's first pose** -/
+theorem alignOrigin_first_pose (r0 e0 : Pose K) (rs es : List (Pose K)) (he : IsRigid e0) :
+    ∃ T ps, alignOrigin (r0 :: rs) (e0 :: es) = some (T, r0 :: ps) ∧ T = r0.mul e0.inv := by
+  refine ⟨r0.mul e0.inv, transformLeft (r0.mul e0.inv) es, ?_, rfl⟩
+  simp only [alignOrigin, transformLeft, List.map_cons]
+  rw [Pose.mul_assoc', Pose.inv_mul_self he, Pose.mul_one']
+
+/-- **origin mode preserves all relative poses** (`rel (T·a) (T·b) = rel a b`), for valid
+(rigid) first poses; every pose is moved by the returned matrix `T = ref₀·est₀⁻¹` -/
+theorem alignOrigin_preserves_rel (ref est : List (Pose K)) (T : Pose K) (ps : List (Pose K))
+    (h : alignOrigin ref est = some (T, ps))
+    (hr : ∀ p ∈ ref, IsRigid p) (he : ∀ p ∈ est, IsRigid p) :
+    ps = est.map (fun p => T.mul p) ∧ IsRigid T ∧ ∀ a b : Pose K, (T.mul a).rel (T.mul b) = a.rel b := by
+  cases ref with
+  | nil => simp [alignOrigin] at h
+  | cons r0 rs =>
+    cases est with
+    | nil => simp [alignOrigin] at h
+    | cons e0 es =>
+      simp only [alignOrigin, Option.some.injEq, Prod.mk.injEq] at h
+      obtain ⟨hT, hps⟩ := h
+      have hrig : IsRigid T := by
+        rw [← hT]; exact IsRigid.mul (hr r0 (by simp)) (he e0 (by simp)).inv
+      exact ⟨by rw [← hps, ← hT]; rfl, hrig, fun a b => Pose.rel_left_invariant T a b hrig⟩
+
+/-- empty trajectories are refused by origin alignment -/
+theorem alignOrigin_refuses_empty (l : List (Pose K)) :
+    alignOrigin ([] : List (Pose K)) l = none ∧ alignOrigin l ([] : List (Pose K)) = none := by
+  constructor
+  · simp [alignOrigin]
+  · cases l <;> simp [alignOrigin]
+
+/-- the squared translation error over the poses used, after alignment, *is* the Umeyama residual
+of the returned parameters (all three modes; `n` as in `align`) -/
+theorem align_sse_eq_resid (n : Int) (R : M3 K) (t : V3 K) (s : K) (est ref : List (Pose K)) :
+    sse (firstN n (positions (alignApply .sim3 R t s est))) (firstN n (positions ref))
+      = resid (alignInputs n est ref).1 (alignInputs n est ref).2 R t s ∧
+    sse (firstN n (positions (alignApply .se3 R t s est))) (firstN n (positions ref))
+      = resid (alignInputs n est ref).1 (alignInputs n est ref).2 R t 1 ∧
+    sse (firstN n (positions est)) (firstN n (positions ref))
+      = resid (alignInputs n est ref).1 (alignInputs n est ref).2 M3.one V3.zero 1 := by
+  refine ⟨?_, ?_, ?_⟩
+  · rw [alignApply_sim3, ← sse_map]
+    simp only [positions, alignInputs, List.map_map, firstN_map]
+    rfl
+  · rw [alignApply_se3, ← sse_map]
+    simp only [positions, alignInputs, List.map_map, firstN_map]
+    rfl
+  · exact sse_eq_resid_id _ _
+
+section rat
+
+/-- **RMSE after rigid / similarity alignment is never larger than before** (sum of squared
+position errors over the poses used; the identity is in the class), given that the returned
+triple passes the C03 certificate on the point sets `align` hands to Umeyama -/
+theorem align_rmse_not_worse (n : Int) (ws : Bool) (R : M3 Rat) (t : V3 Rat) (s : Rat) (est ref : List (Pose Rat))
+    (hc : umeCert 0 ws (alignInputs n est ref).1 (alignInputs n est ref).2 R t s = true)
+    (hlen : (alignInputs n est ref).1.length = (alignInputs n est ref).2.length)
+    (hne : (alignInputs n est ref).1 ≠ []) :
+    sse (firstN n (positions (alignApply (if ws then .sim3 else .se3) R t s est))) (firstN n (positions ref))
+      ≤ sse (firstN n (positions est)) (firstN n (positions ref)) := by
+  obtain ⟨h1, h2, h3⟩ := align_sse_eq_resid n R t s est ref
+  rw [h3]
+  cases ws with
+  | true =>
+    simp only [if_true]
+    rw [h1]
+    exact optimal_sim (cert_of_umeCert hc) hlen hne M3.one V3.zero 1 IsRot.one zero_le_one
+  | false =>
+    simp only [Bool.false_eq_true, if_false]
+    rw [h2]
+    have hs : s = 1 := by
+      have := (cert_of_umeCert hc).scale
+      simpa using this
+    have := optimal_rigid (cert_of_umeCert hc) hlen hne M3.one V3.zero IsRot.one
+    rwa [hs] at this
+
+/-- **… and never larger than under any other transformation of the same class** -/
+theorem align_rmse_optimal (n : Int) (ws : Bool) (R : M3 Rat) (t : V3 Rat) (s : Rat) (est ref : List (Pose Rat))
+    (hc : umeCert 0 ws (alignInputs n est ref).1 (alignInputs n est ref).2 R t s = true)
+    (hlen : (alignInputs n est ref).1.length = (alignInputs n est ref).2.length)
+    (hne : (alignInputs n est ref).1 ≠ [])
+    (R' : M3 Rat) (t' : V3 Rat) (s' : Rat) (hR' : IsRot R') (hs' : if ws then 0 ≤ s' else s' = 1) :
+    sse (firstN n (positions (alignApply (if ws then .sim3 else .se3) R t s est))) (firstN n (positions ref))
+      ≤ sse (firstN n (positions (alignApply .sim3 R' t' s' est))) (firstN n (positions ref)) := by
+  obtain ⟨h1, h2, _⟩ := align_sse_eq_resid n R t s est ref
+  obtain ⟨h1', _, _⟩ := align_sse_eq_resid n R' t' s' est ref
+  rw [h1']
+  cases ws with
+  | true =>
+    simp only [if_true] at hs' ⊢
+    rw [h1]
+    exact optimal_sim (cert_of_umeCert hc) hlen hne R' t' s' hR' hs'
+  | false =>
+    simp only [Bool.false_eq_true, if_false] at hs' ⊢
+    rw [h2, hs']
+    have hs : s = 1 := by
+      have := (cert_of_umeCert hc).scale
+      simpa using this
+    have := optimal_rigid (cert_of_umeCert hc) hlen hne R' t' hR'
+    rwa [hs] at this
+
+/-- **aligning an already aligned trajectory cannot improve it** (`_partial`: the identity attains
+the minimum for the aligned estimate, so a second alignment returns a transformation with the
+same residual as the identity; that it *is* the identity needs uniqueness of the minimiser, which
+is proved only for noise-free data — `C03.umeyama_noise_free`) -/
+theorem align_twice_identity_partial (x y : List (V3 Rat)) (R : M3 Rat) (t : V3 Rat) (s : Rat)
+    (hc : umeCert 0 true x y R t s = true) (hlen : x.length = y.length) (hne : x ≠ [])
+    (R' : M3 Rat) (t' : V3 Rat) (s' : Rat) (hR' : IsRot R') (hs' : 0 ≤ s') :
+    resid (x.map (simApply R t s)) y M3.one V3.zero 1 ≤ resid (x.map (simApply R t s)) y R' t' s' := by
+  rw [← sse_eq_resid_id, sse_map, resid_map_comp]
+  have hc' := cert_of_umeCert hc
+  have hs : 0 < s := by have := hc'.scale; simp only [if_true] at this; exact this.2
+  exact optimal_sim hc' hlen hne _ _ _ (hR'.mul hc'.rot) (mul_nonneg hs' hs.le)
+
+end rat
+
+/-- **the recorded `alignment_transformation_sim3` maps the unaligned estimate onto the stored
+estimate**, for every combination of `align`, `correct_scale`, `align_origin` (8 cases; when
+nothing is requested no matrix is recorded and the estimate is untouched). `s ≠ 0`, and `s = 1`
+when scale correction is off — both guaranteed by C03 (`umeyama_scale_pos`). -/
+theorem recorded_matrix_maps_unaligned_to_stored (o : Opts) (R : M3 K) (t : V3 K) (s : K)
+    (ref est stored : List (Pose K)) (M : Option (Pose K))
+    (h : apeAlign o R t s ref est = some (stored, M)) (hs : s ≠ 0) (hs1 : o.correctScale = false → s = 1) :
+    (∀ M', M = some M' → stored = est.map (moveBy M' (if o.correctScale then s else 1))) ∧
+    (M = none → stored = est ∧ o.align = false ∧ o.correctScale = false ∧ o.alignOrigin = false) := by
+  obtain ⟨a, c, og⟩ := o
+  have key : ∀ (m1 : Pose K) (σ : K) (est1 : List (Pose K)), est1 = est.map (moveBy m1 σ) →
+      ∀ T ps, alignOrigin ref est1 = some (T, ps) → ps = est.map (moveBy (T.mul m1) σ) := by
+    intro m1 σ est1 h1 T ps hO
+    cases ref with
+    | nil => simp [alignOrigin] at hO
+    | cons r0 rs =>
+      cases hE : est1 with
+      | nil => rw [hE] at hO; simp [alignOrigin] at hO
+      | cons e0 es =>
+        rw [hE] at hO
+        simp only [alignOrigin, Option.some.injEq, Prod.mk.injEq] at hO
+        obtain ⟨hT, hps⟩ := hO
+        rw [← hps, ← hE, h1, hT]
+        simp only [transformLeft, List.map_map]
+        apply List.map_congr_left
+        intro p _
+        simp only [Function.comp, moveBy_mul]
+  have hsim : alignApply .sim3 R t s est = est.map (moveBy (Pose.sim3 R t s) s) := by
+    rw [alignApply_sim3]; apply List.map_congr_left; intro p _; rw [moveBy_sim3 R t s hs]
+  have hse : s = 1 → alignApply .se3 R t s est = est.map (moveBy (Pose.sim3 R t s) 1) := by
+    intro h1; subst h1
+    rw [alignApply_se3]; apply List.map_congr_left; intro p _; rw [moveBy_sim3 R t 1 one_ne_zero]
+  have hsc : alignApply .scaleOnly R t s est = est.map (moveBy (Pose.sim3 M3.one V3.zero s) s) := by
+    rw [alignApply_scaleOnly]; apply List.map_congr_left; intro p _; rw [moveBy_scale s hs]
+  have hid : est = est.map (moveBy (Pose.one : Pose K) 1) := by
+    conv_lhs => rw [← List.map_id est]
+    apply List.map_congr_left; intro p _; rw [moveBy_rigid, Pose.one_mul']; rfl
+  cases a <;> cases c <;> cases og <;>
+    simp only [apeAlign, Opts.mode, Opts.onlyScale, modeOf, Bool.or_false, Bool.or_true, Bool.false_or,
+      Bool.and_true, Bool.and_false, Bool.not_true, Bool.not_false, Bool.false_eq_true, if_false, if_true,
+      Bool.true_and, Bool.false_and] at h hs1
+  · -- nothing requested
+    simp only [Option.some.injEq, Prod.mk.injEq] at h
+    obtain ⟨h1, h2⟩ := h
+    subst h2; exact ⟨fun M' hM => (by cases hM), fun _ => ⟨h1.symm, rfl, rfl, rfl⟩⟩
+  · -- origin only
+    cases hO : alignOrigin ref est with
+    | none => rw [hO] at h; simp at h
+    | some Tp =>
+      obtain ⟨T, ps⟩ := Tp
+      rw [hO] at h
+      simp only [Option.some.injEq, Prod.mk.injEq] at h
+      obtain ⟨h1, h2⟩ := h
+      subst h2
+      have := key Pose.one 1 est hid T ps hO
+      rw [Pose.mul_one'] at this
+      exact ⟨fun M' hM => (by cases hM; rw [← h1]; exact this), fun hM => (by cases hM)⟩
+  · -- scale only
+    simp only [Option.some.injEq, Prod.mk.injEq] at h
+    obtain ⟨h1, h2⟩ := h
+    subst h2
+    exact ⟨fun M' hM => (by cases hM; rw [← h1]; exact hsc), fun hM => (by cases hM)⟩
+  · -- scale + origin
+    cases hO : alignOrigin ref (alignApply .scaleOnly R t s est) with
+    | none => rw [hO] at h; simp at h
+    | some Tp =>
+      obtain ⟨T, ps⟩ := Tp
+      rw [hO] at h
+      simp only [Option.some.injEq, Prod.mk.injEq] at h
+      obtain ⟨h1, h2⟩ := h
+      subst h2
+      exact ⟨fun M' hM => (by cases hM; rw [← h1]; exact key _ s _ hsc T ps hO), fun hM => (by cases hM)⟩
+  · -- rigid
+    simp only [Option.some.injEq, Prod.mk.injEq] at h
+    obtain ⟨h1, h2⟩ := h
+    subst h2
+    exact ⟨fun M' hM => (by cases hM; rw [← h1]; exact hse (hs1 trivial)), fun hM => (by cases hM)⟩
+  · -- rigid + origin
+    cases hO : alignOrigin ref (alignApply .se3 R t s est) with
+    | none => rw [hO] at h; simp at h
+    | some Tp =>
+      obtain ⟨T, ps⟩ := Tp
+      rw [hO] at h
+      simp only [Option.some.injEq, Prod.mk.injEq] at h
+      obtain ⟨h1, h2⟩ := h
+      subst h2
+      exact ⟨fun M' hM => (by cases hM; rw [← h1]; exact key _ 1 _ (hse (hs1 trivial)) T ps hO), fun hM => (by cases hM)⟩
+  · -- similarity
+    simp only [Option.some.injEq, Prod.mk.injEq] at h
+    obtain ⟨h1, h2⟩ := h
+    subst h2
+    exact ⟨fun M' hM => (by cases hM; rw [← h1]; exact hsim), fun hM => (by cases hM)⟩
+  · -- similarity + origin
+    cases hO : alignOrigin ref (alignApply .sim3 R t s est) with
+    | none => rw [hO] at h; simp at h
+    | some Tp =>
+      obtain ⟨T, ps⟩ := Tp
+      rw [hO] at h
+      simp only [Option.some.injEq, Prod.mk.injEq] at h
+      obtain ⟨h1, h2⟩ := h
+      subst h2
+      exact ⟨fun M' hM => (by cases hM; rw [← h1]; exact key _ s _ hsim T ps hO), fun hM => (by cases hM)⟩
+
+/-! ### the code before fix aaba970 (finding F5): kernel-checked counterexamples -/
+
+def cxRef : List (Pose Rat) := [⟨M3.one, ⟨0, 0, 0⟩⟩, ⟨M3.one, ⟨2, 0, 0⟩⟩, ⟨M3.one, ⟨2, 4, 0⟩⟩, ⟨M3.one, ⟨0, 4, 6⟩⟩]
+def cxEst : List (Pose Rat) := [⟨M3.one, ⟨1, 1, 1⟩⟩, ⟨M3.one, ⟨2, 1, 1⟩⟩, ⟨M3.one, ⟨2, 3, 1⟩⟩, ⟨M3.one, ⟨1, 3, 4⟩⟩]
+/-- rotation by 90° about z -/
+def cxR : M3 Rat := ⟨0, -1, 0, 1, 0, 0, 0, 0, 1⟩
+
+/-- scale correction alone: the old code recorded `sim3(R, t, s)` although only `s` was applied -/
+theorem recorded_matrix_counterexample_scaleOnly :
+    ∃ stored M, apeAlignOld ⟨false, true, false⟩ cxR ⟨1, 2, 3⟩ 2 cxRef cxEst = some (stored, some M)
+      ∧ stored ≠ cxEst.map (moveBy M 2) := by
+  refine ⟨_, _, rfl, ?_⟩
+  decide +kernel
+
+/-- scale correction + origin alignment: the old code recorded only the origin transformation -/
+theorem recorded_matrix_counterexample_scale_then_origin :
+    ∃ stored M, apeAlignOld ⟨false, true, true⟩ cxR ⟨1, 2, 3⟩ 2 cxRef cxEst = some (stored, some M)
+      ∧ stored ≠ cxEst.map (moveBy M 2) ∧ stored ≠ cxEst.map (moveBy M 1) := by
+  refine ⟨_, _, rfl, ?_, ?_⟩ <;> decide +kernel
+
+/-- mutant check: applying the scale *after* the rigid transformation is a different map -/
+theorem scale_after_transform_differs :
+    scalePath 2 (transformLeft (se3 cxR ⟨1, 2, 3⟩) cxEst) ≠ alignApply .sim3 cxR ⟨1, 2, 3⟩ 2 cxEst := by
+  decide +kernel
+
+/-! ### non-vacuity -/
+
+/-- the repaired code on the same instance: all eight option combinations produce a result, and the
+hypotheses of `recorded_matrix_maps_unaligned_to_stored` hold (`s = 2 ≠ 0`) -/
+example : (apeAlign ⟨false, true, true⟩ cxR ⟨1, 2, 3⟩ 2 cxRef cxEst).isSome = true := by decide +kernel
+example : ∃ stored M, apeAlign ⟨false, true, false⟩ cxR ⟨1, 2, 3⟩ 2 cxRef cxEst = some (stored, some M)
+    ∧ stored = cxEst.map (moveBy M 2) := ⟨_, _, rfl, by decide +kernel⟩
+/-- origin alignment of rigid poses: defined, first pose = reference's first pose -/
+example : ∃ T ps, alignOrigin cxRef cxEst = some (T, ps) ∧ ps.head? = cxRef.head? := ⟨_, _, rfl, by decide +kernel⟩
+/-- a certified Umeyama triple on trajectory positions (octahedron, scale 15/14) — the hypotheses of
+`align_rmse_not_worse` / `align_rmse_optimal` are satisfiable with a non-zero residual -/
+def oEst : List (Pose Rat) :=
+  [⟨M3.one, ⟨3, 0, 0⟩⟩, ⟨M3.one, ⟨-3, 0, 0⟩⟩, ⟨M3.one, ⟨0, 2, 0⟩⟩, ⟨M3.one, ⟨0, -2, 0⟩⟩, ⟨M3.one, ⟨0, 0, 1⟩⟩, ⟨M3.one, ⟨0, 0, -1⟩⟩]
+def oRef : List (Pose Rat) :=
+  [⟨M3.one, ⟨3, 0, 0⟩⟩, ⟨M3.one, ⟨-3, 0, 0⟩⟩, ⟨M3.one, ⟨0, 2, 0⟩⟩, ⟨M3.one, ⟨0, -2, 0⟩⟩, ⟨M3.one, ⟨0, 0, 2⟩⟩, ⟨M3.one, ⟨0, 0, -2⟩⟩,
+   ⟨M3.one, ⟨7, 7, 7⟩⟩]
+example : umeCert 0 true (alignInputs 6 (oEst ++ [⟨M3.one, ⟨9, 9, 9⟩⟩]) oRef).1 (alignInputs 6 (oEst ++ [⟨M3.one, ⟨9, 9, 9⟩⟩]) oRef).2
+    M3.one ⟨0, 0, 0⟩ (15/14) = true := by decide +kernel
+
 end Evo.C04
